@@ -51,7 +51,7 @@ fn main() {
   for_each_line(|line| {
     let t: Vec<&str> = line.split(' ').collect();
     match t[0] {
-      "chk" if t.len() == 2 => {
+      "chk" if t.len() >= 2 => {
         let src = unhex_str(t[1]);
         match catch_unwind(AssertUnwindSafe(|| check(&src))) {
           Ok(s) => s,
